@@ -5,6 +5,7 @@ import (
 	"fmt"
 	"runtime"
 	"sync"
+	"sync/atomic"
 
 	eventbus "github.com/jilio/ebu"
 	"pgregory.net/rapid"
@@ -24,9 +25,20 @@ type ExactCase struct {
 	Publishers []int    `json:"publishers"`
 	UseCtx     bool     `json:"usectx,omitempty"`
 	Procs      int      `json:"procs"`
+	// Dead > 0: one more goroutine publishes Dead events of another type, to
+	// an asynchronous handler of its own, each with a context that it cancels
+	// as soon as PublishContext has returned.  Those deliveries may or may
+	// not run (at most once each); the contexts of the other publishes stay
+	// live, and what happens to a stranger's context is none of their
+	// business.
+	Dead int `json:"dead,omitempty"`
+	// SeqYield: Gosched calls inside every asyncseq invocation, so that
+	// later deliveries stand in line behind it.
+	SeqYield int `json:"seq_yield,omitempty"`
 }
 
 type xev struct{ ID int }
+type yev struct{ ID int }
 
 func GenExact(t *rapid.T) *ExactCase {
 	c := &ExactCase{UseCtx: rapid.Bool().Draw(t, "usectx"), Procs: rapid.SampledFrom([]int{1, 2, 4, 16}).Draw(t, "procs")}
@@ -38,6 +50,10 @@ func GenExact(t *rapid.T) *ExactCase {
 	for i := 0; i < np; i++ {
 		c.Publishers = append(c.Publishers, rapid.IntRange(1, 6).Draw(t, "n"))
 	}
+	if rapid.IntRange(0, 2).Draw(t, "hasDead") == 0 {
+		c.Dead = rapid.IntRange(1, 30).Draw(t, "dead")
+	}
+	c.SeqYield = rapid.SampledFrom([]int{0, 0, 1, 3}).Draw(t, "seqYield")
 	return c
 }
 
@@ -65,7 +81,12 @@ func RunExact(c *ExactCase) *vkit.Outcome {
 			case "async":
 				eventbus.Subscribe(bus, func(e xev) { hit(hi, e.ID) }, eventbus.Async())
 			case "asyncseq":
-				eventbus.SubscribeContext(bus, func(_ context.Context, e xev) { hit(hi, e.ID) }, eventbus.Async(), eventbus.Sequential())
+				eventbus.SubscribeContext(bus, func(_ context.Context, e xev) {
+					for y := 0; y < c.SeqYield; y++ {
+						runtime.Gosched()
+					}
+					hit(hi, e.ID)
+				}, eventbus.Async(), eventbus.Sequential())
 			case "once":
 				eventbus.Subscribe(bus, func(e xev) { hit(hi, e.ID) }, eventbus.Once())
 			case "onceasync":
@@ -108,9 +129,29 @@ func RunExact(c *ExactCase) *vkit.Outcome {
 			}(base, n)
 			base += n
 		}
+		deadRuns := make([]atomic.Int32, c.Dead)
+		if c.Dead > 0 {
+			eventbus.SubscribeContext(bus, func(_ context.Context, e yev) { deadRuns[e.ID].Add(1) }, eventbus.Async())
+			done.Add(1)
+			go func() {
+				defer done.Done()
+				start.Wait()
+				for i := 0; i < c.Dead; i++ {
+					ctx, cancel := context.WithCancel(context.Background())
+					eventbus.PublishContext(bus, ctx, yev{ID: i})
+					cancel()
+				}
+			}()
+		}
 		start.Done()
 		done.Wait()
 		bus.Wait()
+		for i := range deadRuns {
+			if n := deadRuns[i].Load(); n > 1 {
+				o.Failf("", "round %d: the asynchronous handler of the cancelled publishes ran %d times for event %d", round, n, i)
+				return o
+			}
+		}
 		mu.Lock()
 		for hi, k := range c.Order {
 			switch k {
@@ -146,6 +187,9 @@ func RunExact(c *ExactCase) *vkit.Outcome {
 	for _, k := range c.Order {
 		hasOnce = hasOnce || k == "once" || k == "onceasync"
 		hasAsync = hasAsync || k == "async" || k == "asyncseq"
+	}
+	if c.Dead > 0 {
+		o.Class("publishes_of_another_type_with_contexts_cancelled_on_return")
 	}
 	if hasOnce && hasAsync {
 		o.Nontrivial = true
